@@ -75,10 +75,17 @@ def apply_edit(fk, p, e, rng):
 def record_hist(fk, data, hist, rng, hid):
     p0 = fk.Pickled.load(data)
     shared = list(p0)
+    if hid % 3 == 2:
+        # the sequence already holds opcodes the library constructed but cannot encode (what insert_python(0.5, ...) leaves
+        # behind: BINFLOAT; a created BINPUT): every edit behind them meets the "no encoder" path of the bookkeeping
+        shared[0:0] = [fk.BinFloat(0.5), fk.Pop(), fk.BinPut(9)] if hid % 2 else [fk.BinFloat(0.5), fk.Pop()]
     p = fk.Pickled(shared)          # the object that is edited
     sib = fk.Pickled(shared)        # a second object constructed from the very same list: must be unaffected
     sib_views = {v: ask(sib, v) for v in ("source", "flags", "severity")}
-    sib_bytes = sib.dumps()
+    try:
+        sib_bytes = sib.dumps()     # noqa: F841
+    except NotImplementedError:     # the base holds an opcode without an encoder
+        sib_bytes = None            # noqa: F841
     steps = []
     for h in hist:
         if h in VIEWS:
@@ -213,8 +220,8 @@ def replay(ctx, path):
     r = obj["record"]
     bad = 0
     for seed in range(40):          # the instantiation of abstract edits is random: try several
-        rec = record_hist(fk, bytes.fromhex(r["hex"]), r["hist"], random.Random(seed), 0)
-        v = tv.validate(ctx, "CacheTrace", [rec])[0]
+        rec = record_hist(fk, bytes.fromhex(r["hex"]), r["hist"], random.Random(seed), r["id"])     # (the id selects the base variant)
+        v = tv.validate(ctx, "CacheTrace", [rec])[r["id"]]
         if v["v"] != "accepted":
             print(f"VIOLATION property=C14 replay={path}   # {v['v']}")
             bad = 1
